@@ -6,6 +6,8 @@ same in Lua) is run by the REAL `uftrace script -S` with and without UFTRACE_FUN
 its lines are compared inside Coq with the model (script_run) and judged by the executable
 checker ok_script against what `uftrace replay --no-merge -f duration,tid,addr,time` of the same
 tree prints for the same data and options.
+Tie, arguments / return value: directories whose records carry -A/-R payloads; what a Python and a Lua script receive in
+ctx["args"] / ctx["retval"] is compared (ok_script_args, inside Coq) with the text replay prints for the same record.
 Tie, record time: a threaded -pg program is recorded with `-S log.py`; the callbacks are judged by
 ok_record_time (properly paired entry/exit per thread) and compared with replay of the recording.
 """
@@ -119,7 +121,7 @@ def matched_ids(case, funcs):
     if funcs is None:
         return []
     pt = funcs_ptype(funcs)
-    ids = [i + 1 for i, n in enumerate(case["names"]) if any(entry_matches(e, n, pt) for e in funcs)]
+    ids = [c06.fid(case, i) for i, n in enumerate(case["names"]) if any(entry_matches(e, n, pt) for e in funcs)]
     return ids or [77777]
 
 
@@ -181,11 +183,11 @@ def run_script_case(ctx, objdir, case, variants):
     """variants: list of (lang, funcs or None, sel or None).  returns list of (variant, callbacks, replay_lines)"""
     d = os.path.join(ctx.scratch, "data")
     c06.write_dir(case, d)
-    name_map = {n: i + 1 for i, n in enumerate(case["names"])}
+    name_map = c06.name_ids(case)
     tid_map = {t["tid"]: i for i, t in enumerate(case["tasks"])}
     syms = c06.sym_table(case)
-    addr_map = {c06.BASE + s[0]: i + 1 for i, s in enumerate(syms)}
-    addr_map.update({c06.BASE2 + s[0]: i + 1 for i, s in enumerate(syms)})
+    addr_map = {c06.BASE + s[0]: c06.fid(case, i) for i, s in enumerate(syms)}
+    addr_map.update({c06.BASE2 + s[0]: c06.fid(case, i) for i, s in enumerate(syms)})
     res = []
     replay_cache = {}
     for lang, funcs, sel in variants:
@@ -282,10 +284,10 @@ def run_opts_case(ctx, objdir, case, variants):
     """variants: list of (lang, opts, funcs, sel); returns (variant, callbacks, replay lines with the same options)"""
     d = os.path.join(ctx.scratch, "data")
     c06.write_dir(case, d)
-    name_map = {n: i + 1 for i, n in enumerate(case["names"])}
+    name_map = c06.name_ids(case)
     tid_map = {t["tid"]: i for i, t in enumerate(case["tasks"])}
-    addr_map = {c06.BASE + sy[0]: i + 1 for i, sy in enumerate(c06.sym_table(case))}
-    addr_map.update({c06.BASE2 + sy[0]: i + 1 for i, sy in enumerate(c06.sym_table(case))})
+    addr_map = {c06.BASE + sy[0]: c06.fid(case, i) for i, sy in enumerate(c06.sym_table(case))}
+    addr_map.update({c06.BASE2 + sy[0]: c06.fid(case, i) for i, sy in enumerate(c06.sym_table(case))})
     res = []
     for lang, o, funcs, sel in variants:
         script = os.path.join(ctx.scratch, "logo.%s" % ("py" if lang == "py" else "lua"))
@@ -317,7 +319,7 @@ def coq_fopts(o, names):
 def evaluate_opts(ctx, items, name):
     defs = []
     for ci, (case, obs) in enumerate(items):
-        names = {n: i + 1 for i, n in enumerate(case["names"])}
+        names = c06.name_ids(case)
         vs = []
         for (lang, o, funcs, sel), cbs, lines in obs:
             fl = matched_ids(case, funcs)
@@ -327,7 +329,7 @@ def evaluate_opts(ctx, items, name):
                 coq.coq_bool(o["t"] is None and not o.get("extra")),
                 "; ".join(coq_cb(c) for c in cbs), "; ".join(c06.coq_line(l) for l in lines)))
         defs.append("Definition c%d : ocase := ([%s], [%s], [%s])." % (
-            ci, "; ".join(str(k + 1) for k in case["forks"]), ";\n ".join(c06.coq_task(t) for t in case["tasks"]),
+            ci, "; ".join(str(c06.fid(case, k)) for k in case["forks"]), ";\n ".join(c06.coq_task(t, case) for t in case["tasks"]),
             ";\n ".join(vs)))
     defs.append("Definition cases : list ocase := [%s]." % "; ".join("c%d" % i for i in range(len(items))))
     res = coq.run_cases(ctx, name, PRE + "Require Import UV.C18.Filter.\n", "\n".join(defs), [
@@ -375,7 +377,7 @@ def leak_shape_case():
 def evaluate(ctx, items, name):
     defs = []
     for ci, (case, obs) in enumerate(items):
-        names = {n: i + 1 for i, n in enumerate(case["names"])}
+        names = c06.name_ids(case)
         vs = []
         for (lang, funcs, sel), cbs, lines in obs:
             fl = matched_ids(case, funcs)
@@ -384,7 +386,7 @@ def evaluate(ctx, items, name):
                 "None" if sel is None else "(Some [%s])" % "; ".join("%d%%nat" % i for i in sel),
                 "; ".join(coq_cb(c) for c in cbs), "; ".join(c06.coq_line(l) for l in lines)))
         defs.append("Definition c%d : scase := ([%s], [%s], [%s])." % (
-            ci, "; ".join(str(k + 1) for k in case["forks"]), ";\n ".join(c06.coq_task(t) for t in case["tasks"]),
+            ci, "; ".join(str(c06.fid(case, k)) for k in case["forks"]), ";\n ".join(c06.coq_task(t, case) for t in case["tasks"]),
             ";\n ".join(vs)))
     defs.append("Definition cases : list scase := [%s]." % "; ".join("c%d" % i for i in range(len(items))))
     res = coq.run_cases(ctx, name, PRE, "\n".join(defs), [
@@ -574,6 +576,410 @@ def record_time(ctx, objdir):
                                         "replay": {str(k): v for k, v in want.items()}}, True)
 
 
+# ------------------------------------------------------------------ end to end: a real program with longjmp and exec
+JMP_PROG = r'''
+#include <setjmp.h>
+#include <stdio.h>
+#include <stdlib.h>
+#include <string.h>
+#include <unistd.h>
+static jmp_buf env;
+static volatile int sink;
+__attribute__((noinline)) void leaf(int n) { sink += n; }
+__attribute__((noinline)) void thrower(int n) { leaf(n); if (n > 0) longjmp(env, n); }
+__attribute__((noinline)) void middle(int n) { leaf(n); thrower(n); leaf(-n); }
+__attribute__((noinline)) void outer(int n) { middle(n); leaf(-n); }
+__attribute__((noinline)) void after_exec(void) { leaf(7); }
+__attribute__((noinline)) void do_exec(char *self) { leaf(3); execl(self, self, "child", NULL); abort(); }
+int main(int argc, char *argv[])
+{
+	if (argc > 1 && !strcmp(argv[1], "child")) { after_exec(); return 0; }
+	if (setjmp(env) == 0)
+		outer(2);
+	leaf(1);
+	if (argc > 1 && !strcmp(argv[1], "exec"))
+		do_exec(argv[0]);
+	return 0;
+}
+'''
+
+
+def e2e_jump(ctx, objdir):
+    """a really recorded program: longjmp() from three frames below its setjmp(), then execl() of itself.  The callbacks of
+    `uftrace script -S log.py` on the recording are judged by ok_script against `uftrace replay --no-merge` of the same data
+    (kind, tid, depth, timestamp, duration, name of every callback, begin/end once)"""
+    root = os.path.join(ctx.scratch, "jmp")
+    os.makedirs(root, exist_ok=True)
+    src = os.path.join(root, "jmp.c")
+    open(src, "w").write(JMP_PROG)
+    exe = os.path.join(root, "jmp")
+    sh(["gcc", "-pg", "-O0", "-o", exe, src], check=True)
+    uft = os.path.join(objdir, "uftrace")
+    script = os.path.join(root, "log.py")
+    write_script(script, "py", None)
+    terms, metas = [], []
+    for mode, funcs in (("child", None), ("", None), ("exec", None), ("exec", Funcs(["leaf", "longjmp", "execl", "setjmp"]))):
+        d = os.path.join(root, "rec-%s.data" % (mode or "jump"))
+        shutil.rmtree(d, ignore_errors=True)
+        rc, out, err = sh(["timeout", "60", uft, "record", "--no-pager", "--no-event", "--libmcount-path=" + objdir, "-d", d, exe]
+                          + ([mode] if mode else []), timeout=90)
+        if rc != 0:
+            ctx.broken("e2e: recording the longjmp/exec program failed (rc=%d): %s" % (rc, (out + err)[-300:]))
+            continue
+        write_script(script, "py", funcs)
+        rc1, sout, serr = datadir.uftrace(objdir, "script", d, ["-S", script], timeout=60)
+        rc2, rout, rerr = datadir.uftrace(objdir, "replay", d, ["--no-merge", "-f", "duration,tid,time"], timeout=60)
+        if rc1 != 0 or rc2 != 0:
+            ctx.violation("e2e: uftrace script / replay failed on a recording with longjmp/exec (rc=%d/%d)" % (rc1, rc2),
+                          {"e2e_jump": mode, "err": (serr + rerr)[-300:]}, True)
+            continue
+        names, tids = {}, {}
+        nid = lambda n: names.setdefault(n, len(names) + 1)
+        tix = lambda t: tids.setdefault(t, len(tids))
+        lines = []
+        for ln in rout.split("\n"):
+            m = re.fullmatch(r" (.{10}) \[ *(\d+)\] +(\d+)\.(\d{9}) \| ( *)(.*)", ln)
+            if not m:
+                continue
+            dur = c06.parse_time_unit(m.group(1)) or 0
+            tm = int(m.group(3)) * 10**9 + int(m.group(4))
+            sp, rest = len(m.group(5)), m.group(6)
+            mo = re.fullmatch(r"(\S+)\(\) \{", rest)
+            mc = re.fullmatch(r"\} /\* (\S+) \*/", rest)
+            if mo:
+                lines.append(("O", tix(int(m.group(2))), sp // 2, nid(mo.group(1)), 0, 0, tm, 0, 0))
+            elif mc:
+                lines.append(("C", tix(int(m.group(2))), sp // 2, nid(mc.group(1)), dur, 0, tm, 0, 0))
+            elif rest.strip():
+                lines.append(c06.BAD)
+        cbs = parse_callbacks(sout, tix, nid, lambda a: 0)
+        # the address is not compared here (a PLT address has no line of its own in replay): use the name's id
+        cbs = [c if c[0] not in ("E", "X") else (c[:4] + (c[5],) + c[5:] if c[0] == "E" else c[:5] + (c[6],) + c[6:]) for c in cbs]
+        fl = [] if funcs is None else [names[f] for f in funcs if f in names] or [77777]
+        terms.append("([%s], [%s], [%s])" % ("; ".join(map(str, fl)), "; ".join(coq_cb(c) for c in cbs),
+                                             "; ".join(c06.coq_line(l) for l in lines)))
+        metas.append({"e2e_jump": mode or "longjmp", "funcs": funcs, "callbacks": len(cbs), "replay_lines": len(lines)})
+        has = {n for n in names}
+        ctx.case(key=("e2e-jump", mode, repr(funcs)), tags=["e2e:real-program", "e2e:" + (mode or "longjmp")]
+                 + (["e2e:longjmp-seen"] if "longjmp" in has else []) + (["e2e:exec-seen"] if "execl" in has else []),
+                 size=len(cbs))
+    if not terms:
+        return
+    defs = "Definition runs : list (list N * list callback * list line) := [%s]." % ";\n".join(terms)
+    res = coq.run_cases(ctx, "e2e_jump", PRE, defs,
+                        [("bad", "bad_indices (fun x => ok_script (fst (fst x)) (snd (fst x)) (snd x)) runs 0")])
+    if res is None:
+        return
+    for i in coq.parse_nat_list(res["bad"])[:3]:
+        ctx.violation("C18 violated on a recorded program with longjmp/exec: the callbacks of `uftrace script` differ from what "
+                      "`uftrace replay` shows for the same recording (kind, tid, depth, timestamp, duration, name)", metas[i], True)
+
+
+# ------------------------------------------------------------------ arguments and return values
+# "script = replay" for ctx["args"] / ctx["retval"]: the text replay prints for a record is the reference (what a payload
+# decodes to is C09's subject).  The logging scripts print what they received in replay's notation; the two texts of
+# every callback / line become opaque tokens and are compared inside Coq (ok_script_args).
+ARG_FMTS = ["i8", "i16", "i32", "i64", "s", "s", "s", "f32", "f64", "c"]
+STR_ALPHA = "abcdefghijklmnopqrstuvwxyzABCXYZ0123456789 _-,.;:(){}=/"
+
+
+def fmt_size(f):
+    return {"i8": 1, "i16": 2, "i32": 4, "i64": 8, "f32": 4, "f64": 8, "c": 1}[f]
+
+
+def gen_value(rng, f, slen=None):
+    import struct
+    if f == "s":
+        n = rng.randrange(0, 13) if slen is None else slen
+        return "".join(rng.choice(STR_ALPHA) for _ in range(n))
+    if f == "c":
+        return rng.choice("abcxyzAZ09_")
+    if f in ("f32", "f64"):
+        v = rng.choice([0.5, -1.25, 3.75, rng.uniform(-1000, 1000), rng.uniform(-1, 1), float(rng.randrange(-50, 50))])
+        return struct.unpack("<f", struct.pack("<f", v))[0] if f == "f32" else v
+    bits = int(f[1:])
+    lim = min(bits - 1, 52)             # Lua numbers are doubles
+    return rng.choice([0, 1, -1, (1 << lim) - 1, -(1 << lim), rng.randrange(-(1 << lim), 1 << lim), rng.randrange(-100, 100)])
+
+
+def enc_value(f, v):
+    """on-disk form (libmcount's save_argument layout): every item is padded to 4 bytes; a string is a 2-byte length + bytes"""
+    import struct
+    if f == "s":
+        b = struct.pack("<H", len(v)) + v.encode()
+    elif f == "c":
+        b = v.encode()
+    elif f == "f32":
+        b = struct.pack("<f", v)
+    elif f == "f64":
+        b = struct.pack("<d", v)
+    else:
+        b = (v & ((1 << int(f[1:])) - 1)).to_bytes(int(f[1:]) // 8, "little")
+    return b + b"\0" * (-len(b) % 4)
+
+
+def gen_args_case(rng, k):
+    """a LOST-free, jump-free task set of C06 whose functions carry -A / -R specs and whose records carry payloads"""
+    while True:
+        case = c06.gen_case1(rng, "small" if k % 3 else "medium")
+        if case["illformed"] or case.get("sess2") or not any(t["recs"] for t in case["tasks"]):
+            continue
+        if any(r[1] == c06.LOSTREC for t in case["tasks"] for r in t["recs"]):
+            continue
+        break
+    names = case["names"]
+    aspec, rspec = {}, {}
+    for i, n in enumerate(names):
+        r = rng.random()
+        if r < 0.2:
+            fm = []
+        elif r < 0.55:
+            # a string followed by further arguments
+            fm = [rng.choice(ARG_FMTS) for _ in range(rng.randrange(0, 2))] + ["s"] + [rng.choice(ARG_FMTS) for _ in range(rng.randrange(1, 4))]
+        else:
+            fm = [rng.choice(ARG_FMTS) for _ in range(rng.randrange(1, 5))]
+        if fm:
+            aspec[i] = fm
+        if rng.random() < 0.7:
+            rspec[i] = rng.choice(ARG_FMTS)
+    if not aspec:
+        aspec[0] = ["s", "i32", "i32"]
+    sl = [None]
+
+    def values(fm):
+        out = []
+        for f in fm:
+            # string lengths 0..12 in rotation, so that every residue of len mod 4 is followed by further arguments
+            if f == "s":
+                sl[0] = rng.randrange(0, 13) if sl[0] is None else (sl[0] + 1) % 13
+                out.append(gen_value(rng, f, sl[0]))
+            else:
+                out.append(gen_value(rng, f))
+        return out
+    for t in case["tasks"]:
+        t.pop("forest", None)
+        for r in t["recs"]:
+            fm = aspec.get(r[3]) if r[1] == c06.E else ([rspec[r[3]]] if r[3] in rspec else None)
+            if fm:
+                r.append(b"".join(enc_value(f, v) for f, v in zip(fm, values(fm))).hex())
+    spec = lambda f: "s" if f == "s" else "c" if f == "c" else f
+    case["argspec"] = {
+        "argspec": ";".join("%s@%s" % (names[i], ",".join("arg%d/%s" % (j + 1, spec(f)) for j, f in enumerate(fm)))
+                            for i, fm in sorted(aspec.items())),
+        "retspec": ";".join("%s@retval/%s" % (names[i], spec(f)) for i, f in sorted(rspec.items()))}
+    case["akinds"] = {names[i]: "".join(f[0] for f in fm) for i, fm in aspec.items()}
+    case["rkinds"] = {names[i]: f[0] for i, f in rspec.items()}
+    return case
+
+
+PY_ARGS = r"""
+import os
+AK = %s
+RK = %s
+def fa(v, k):
+    if isinstance(v, float):
+        return "%%f" %% v
+    if isinstance(v, str):
+        return ("'%%s'" if k == "c" else '"%%s"') %% v
+    if isinstance(v, int):
+        return "%%d" %% (v - (1 << 64) if v >= (1 << 63) else v)      # 8-byte integers arrive unsigned
+    return "?" + repr(v)
+def uftrace_begin(ctx):
+    os.write(1, b"B\n")
+def uftrace_entry(ctx):
+    a = ctx.get("args")
+    ks = AK.get(ctx["name"], "")
+    txt = "-" if a is None else "(" + ", ".join(fa(v, ks[i] if i < len(ks) else "?") for i, v in enumerate(a)) + ")"
+    os.write(1, ("E %%d %%d %%d %%s %%s\n" %% (ctx["tid"], ctx["depth"], ctx["timestamp"], ctx["name"], txt)).encode())
+def uftrace_exit(ctx):
+    txt = "-" if "retval" not in ctx else "=" + fa(ctx["retval"], RK.get(ctx["name"], "?"))
+    os.write(1, ("X %%d %%d %%d %%d %%s %%s\n" %% (ctx["tid"], ctx["depth"], ctx["timestamp"], ctx["duration"], ctx["name"], txt)).encode())
+def uftrace_end():
+    os.write(1, b"Z\n")
+"""
+LUA_ARGS = r"""
+AK = %s
+RK = %s
+function fa(v, k)
+  if type(v) == "string" then
+    if k == "c" then return "'" .. v .. "'" else return '"' .. v .. '"' end
+  elseif type(v) == "number" then
+    if k == "f" then return string.format("%%f", v) else return string.format("%%d", v) end
+  end
+  return "?"
+end
+function uftrace_begin(ctx) print("B") end
+function uftrace_entry(ctx)
+  local a = ctx["args"]
+  local txt = "-"
+  if a ~= nil then
+    local ks = AK[ctx["name"]] or ""
+    local parts = {}
+    for i, v in ipairs(a) do parts[#parts + 1] = fa(v, string.sub(ks, i, i)) end
+    txt = "(" .. table.concat(parts, ", ") .. ")"
+  end
+  print(string.format("E %%d %%d %%d %%s %%s", ctx["tid"], ctx["depth"], ctx["timestamp"], ctx["name"], txt))
+end
+function uftrace_exit(ctx)
+  local txt = "-"
+  if ctx["retval"] ~= nil then txt = "=" .. fa(ctx["retval"], RK[ctx["name"]] or "?") end
+  print(string.format("X %%d %%d %%d %%d %%s %%s", ctx["tid"], ctx["depth"], ctx["timestamp"], ctx["duration"], ctx["name"], txt))
+end
+function uftrace_end() print("Z") end
+"""
+
+
+def write_args_script(path, lang, case):
+    ak, rk = case["akinds"], case["rkinds"]
+    if lang == "py":
+        open(path, "w").write(PY_ARGS % (repr(ak), repr(rk)))
+    else:
+        tab = lambda d: "{" + ", ".join('["%s"] = "%s"' % kv for kv in sorted(d.items())) + "}"
+        open(path, "w").write(LUA_ARGS % (tab(ak), tab(rk)))
+
+
+def run_args_case(ctx, objdir, case, langs=("py", "lua")):
+    """-> list of (lang, script callbacks, replay callbacks); the address field of a callback holds the token of the
+    argument-list / return-value text"""
+    d = os.path.join(ctx.scratch, "adata")
+    c06.write_dir(case, d)
+    name_map = c06.name_ids(case)
+    tid_map = {t["tid"]: i for i, t in enumerate(case["tasks"])}
+    tokens = {}
+    tok = lambda s: tokens.setdefault(s, len(tokens) + 1)
+    rc, rout, rerr = datadir.uftrace(objdir, "replay", d, ["--no-merge", "-f", "duration,tid,time"], timeout=60)
+    if rc != 0:
+        ctx.violation("uftrace replay failed on a directory with argument payloads (rc=%d): %s" % (rc, (rout + rerr)[-300:]),
+                      {"args_case": case}, True)
+        return []
+    rcbs = []
+    # calls still open at the end are listed after this marker (C06's subject)
+    rout = rout.split("\nuftrace stopped tracing with remaining functions\n")[0]
+    for ln in rout.split("\n"):
+        m = re.fullmatch(r" (.{10}) \[ *(\d+)\] +(\d+)\.(\d{9}) \| ( *)(.*)", ln)
+        if not m:
+            if ln.strip() and not ln.startswith("#"):
+                rcbs.append(("?",))
+            continue
+        dur = c06.parse_time_unit(m.group(1)) or 0
+        tm = int(m.group(3)) * 10**9 + int(m.group(4))
+        ti, dep, rest = tid_map.get(int(m.group(2)), 999), len(m.group(5)) // 2, m.group(6)
+        mo = re.fullmatch(r"([A-Za-z_0-9]+)(\(.*\)) \{", rest)
+        mc = re.fullmatch(r"\}(?: = (.*);)? /\* (\S+) \*/", rest)
+        if mo:
+            txt = "-" if mo.group(2) == "()" else mo.group(2)
+            rcbs.append(("E", ti, dep, tm, tok(txt), name_map.get(mo.group(1), 88888)))
+        elif mc:
+            txt = "-" if mc.group(1) is None else "=" + mc.group(1)
+            rcbs.append(("X", ti, dep, tm, dur, tok(txt), name_map.get(mc.group(2), 88888)))
+        elif rest.strip():
+            rcbs.append(("?",))
+    res = []
+    for lang in langs:
+        script = os.path.join(ctx.scratch, "alog.%s" % ("py" if lang == "py" else "lua"))
+        write_args_script(script, lang, case)
+        rc, out, err = datadir.uftrace(objdir, "script", d, ["-S", script], timeout=60)
+        if rc != 0:
+            ctx.violation("uftrace script failed on a directory with argument payloads (rc=%d): %s" % (rc, (out + err)[-300:]),
+                          {"args_case": case, "lang": lang}, True)
+            continue
+        cbs, texts = [], []
+        for ln in out.split("\n"):
+            if ln == "":
+                continue
+            if ln in ("B", "Z"):
+                cbs.append((ln,))
+                continue
+            m = re.fullmatch(r"E (\d+) (\d+) (\d+) (\S+) (.*)", ln)
+            if m:
+                cbs.append(("E", tid_map.get(int(m.group(1)), 999), int(m.group(2)), int(m.group(3)), tok(m.group(5)),
+                            name_map.get(m.group(4), 88888)))
+                continue
+            m = re.fullmatch(r"X (\d+) (\d+) (\d+) (\d+) (\S+) (.*)", ln)
+            if m:
+                cbs.append(("X", tid_map.get(int(m.group(1)), 999), int(m.group(2)), int(m.group(3)), int(m.group(4)),
+                            tok(m.group(6)), name_map.get(m.group(5), 88888)))
+                continue
+            cbs.append(("?",))
+        res.append((lang, cbs, rcbs))
+    case["_texts"] = {v: k for k, v in tokens.items()}
+    return res
+
+
+def first_diff(cbs, rcbs, texts):
+    inner = [c for c in cbs if c[0] in ("E", "X")]
+    for i, (a, b) in enumerate(zip(inner, rcbs)):
+        ta, tb = (a[4], b[4]) if a[0] == "E" else (a[5], b[5]) if len(a) > 5 and len(b) > 5 else (None, None)
+        if a[0] != b[0] or ta != tb:
+            return {"index": i, "script": [a[0], texts.get(ta)], "replay": [b[0], texts.get(tb)]}
+    return {"script_callbacks": len(inner), "replay_lines": len(rcbs)}
+
+
+def args_tie(ctx, objdir, cases, name="acases"):
+    items = []
+    for case in cases:
+        obs = run_args_case(ctx, objdir, case)
+        texts = case.pop("_texts", {})
+        nstr2 = sum(1 for t in case["tasks"] for r in t["recs"] if len(r) > 4)
+        for lang, cbs, rcbs in obs:
+            items.append((case, lang, cbs, rcbs, texts))
+            kinds = set("".join(case["akinds"].values()))
+            ctx.case(key=("args", repr([t["recs"] for t in case["tasks"]]), repr(case["argspec"]), lang),
+                     nontrivial=nstr2 > 0,
+                     tags=["args/retval", "lang=" + lang] + ["arg:" + k for k in sorted(kinds)]
+                     + ["ret:" + k for k in sorted(set(case["rkinds"].values()))]
+                     + (["forked-child"] if any(t["parent"] is not None for t in case["tasks"]) else []),
+                     size=len(cbs))
+    if not items:
+        return
+    chunk = 60
+    for s in range(0, len(items), chunk):
+        part = items[s:s + chunk]
+        defs = "Definition runs : list (list callback * list callback) := [%s]." % ";\n".join(
+            "([%s], [%s])" % ("; ".join(coq_cb(c) for c in cbs), "; ".join(coq_cb(c) for c in rcbs))
+            for _, _, cbs, rcbs, _ in part)
+        res = coq.run_cases(ctx, "%s%d" % (name, s // chunk), PRE, defs,
+                            [("bad", "bad_indices (fun x => ok_script_args (fst x) (snd x)) runs 0")])
+        if res is None:
+            continue
+        for i in coq.parse_nat_list(res["bad"])[:3]:
+            case, lang, cbs, rcbs, texts = part[i]
+            pub = {k: v for k, v in case.items() if not k.startswith("_")}
+            ctx.violation("C18 violated (arguments / return value): a %s script's ctx[\"args\"] / ctx[\"retval\"] (or another "
+                          "compared field) differs from what `uftrace replay` prints for the same record: %s"
+                          % ("Python" if lang == "py" else "Lua", first_diff(cbs, rcbs, texts)),
+                          {"args_case": pub, "lang": lang}, True)
+
+
+def hand_args_cases():
+    """the shape of the seeded change: a 2-byte string (2 + 2 = one aligned word) followed by two integers; then every length 0..12"""
+    out = []
+    recs = []
+    t = 1000
+    specs = {0: [], 1: ["s", "i32", "i32"], 2: ["i32", "s", "i32"], 3: ["s", "s", "c", "f64"]}
+    rsp = {1: "i32", 2: "s", 3: "f32"}
+    names = ["main", "tag", "pick", "mix"]
+    recs.append([t, c06.E, 0, 0])
+    for n in range(0, 13):
+        s = "abcdefghijkl"[:n]
+        for k, vals, rv in ((1, [s, 30 + n, 31 + n], -n), (2, [7 - n, s, 9], s), (3, [s, s[::-1], "q", n + 0.5], 1.25 * n)):
+            t += 3
+            recs.append([t, c06.E, 1, k, b"".join(enc_value(f, v) for f, v in zip(specs[k], vals)).hex()])
+            t += 2
+            recs.append([t, c06.X, 1, k, enc_value(rsp[k], rv).hex()])
+    recs.append([t + 5, c06.X, 0, 0])
+    case = {"names": names, "forks": [], "tasks": [{"parent": None, "tid": 4100, "recs": recs}], "max_stack": 1024,
+            "illformed": False, "sess2": None}
+    spec = lambda f: f
+    case["argspec"] = {"argspec": ";".join("%s@%s" % (names[i], ",".join("arg%d/%s" % (j + 1, f) for j, f in enumerate(fm)))
+                                           for i, fm in specs.items() if fm),
+                       "retspec": ";".join("%s@retval/%s" % (names[i], f) for i, f in rsp.items())}
+    case["akinds"] = {names[i]: "".join(f[0] for f in fm) for i, fm in specs.items() if fm}
+    case["rkinds"] = {names[i]: f[0] for i, f in rsp.items()}
+    out.append(case)
+    return out
+
+
 # ------------------------------------------------------------------ entry points
 def common_meta(ctx):
     ctx.rule = ("replay time: a case = one generated task set of C06 x (script language, UFTRACE_FUNCS list or none, --tid "
@@ -589,7 +995,8 @@ def common_meta(ctx):
         "as C06: ENTRY/EXIT user records only, depth < max_stack <= 1024, fork/vfork/daemon fix-ups only; replay-time options: "
         "--tid, -D, -F, -N are modelled (plain names, no symbol in both -F and -N), -t is compared with replay only",
         "UFTRACE_FUNCS entries are plain names (no regex/glob characters): exact match",
-        "arguments / return values (covered by C09's views) are not part of the compared context",
+        "arguments / return values: script vs replay text only (signed integers, strings of 0..12 plain characters, f32/f64, char); what a "
+        "payload decodes to is C09's theorem; unsigned/hex/pointer/enum/struct formats and NULL strings are not compared",
         "record time: no model of libmcount's hooks - pairing per thread and agreement with replay are checked on real runs only",
         "Lua numbers are doubles: timestamps below 2^53",
     ]
@@ -661,16 +1068,23 @@ def run(ctx):
     for s in range(0, len(oitems), chunk):
         part = oitems[s:s + chunk]
         verdict_opts(ctx, part, evaluate_opts(ctx, part, "ocases%d" % (s // chunk)))
+    args_tie(ctx, objdir, hand_args_cases() + [gen_args_case(rng, k) for k in range(ctx.n(25, 250))])
     record_time(ctx, objdir)
+    e2e_jump(ctx, objdir)
 
 
 def replay(ctx, obj):
     common_meta(ctx)
     objdir = setup(ctx)
+    if obj.get("args_case"):
+        args_tie(ctx, objdir, [obj["args_case"]], "replay_args")
+        return
     case = obj.get("case")
     if not case:
         if obj.get("record_time"):
             record_time(ctx, objdir)
+        elif obj.get("e2e_jump") is not None:
+            e2e_jump(ctx, objdir)
         else:
             ctx.log("replay file has no case; nothing to re-execute")
         return
